@@ -67,8 +67,7 @@ def run_session(rnd, w, dumps, kinds, gen_cfg, nacts=14, max_gens=4):
 
     def do_cfg():
         cfg = gen_cfg(rnd)
-        if cfg == cfg_of(w, p):
-            return
+        old = cfg_of(w, p)
         inplace = rnd.random() < 0.5 and isinstance(p.filter_class, list) and isinstance(p.filter_subclass, list)
         if inplace:
             # the caller edits its own lists: same objects, new contents
@@ -79,6 +78,9 @@ def run_session(rnd, w, dumps, kinds, gen_cfg, nacts=14, max_gens=4):
             p.filter_class, p.filter_subclass = fc, fs
         else:
             apply_cfg(w, p, cfg, as_tuple=rnd.random() < 0.2)
+        cfg = cfg_of(w, p)            # as the object now holds it (a digit string filters by pid AND by name)
+        if cfg == old:
+            return
         acts.append({'op': 'cfg', 'cfg': cfg, 'inplace': inplace})
         script.append('cfg %s %s' % ('in-place' if inplace else 'assign', cfg))
         for g in gens:
@@ -253,7 +255,7 @@ def run_sessions(ctx, rnd, n, kinds, gen_dump, gen_cfg, tag, nacts=14):
 def cfg_light(rnd):
     """mostly unfiltered settings, class lists that keep samples and images (callstack / trace focus)"""
     return {'ftid': rnd.choice([0, 0, 0, 1, 2]),
-            'fproc': rnd.choice([{'kind': 'none'}] * 4 + [{'kind': 'pid', 'pid': rnd.choice([11, 12])}, {'kind': 'name', 'name': 'alpha'}]),
+            'fproc': rnd.choice([{'kind': 'none'}] * 4 + [{'kind': 'pid', 'pid': rnd.choice([11, 12])}, {'kind': 'name', 'name': rnd.choice(['alpha', '12', '2048'])}]),
             'fclass': list(rnd.choice([[], [], [], [37, 31], [31, 37, 4], [4], [4, 7]])), 'fsub': list(rnd.choice([[], [], [], [0x40c]]))}
 
 
